@@ -870,7 +870,21 @@ def nontrivial(plan, tr):
 
 
 def valid(plan):
-    return layout(plan)['ok'] and bool(plan['items'])
+    if not (layout(plan)['ok'] and bool(plan['items'])):
+        return False
+    # a data message over in-stream ids needs the definition messages that define them in front of it: a
+    # candidate of the shrinker that drops them is another experiment (it fails for a trivial reason)
+    have_b, have_d = set(), set()
+    for it in plan['items']:
+        if it['kind'] == 'def':
+            have_b |= set(e[0] for e in it.get('b', []))
+            have_d |= set(d[0] for d in it.get('d', []))
+        elif it['kind'] in ('new', 'orphan') and it.get('truth'):
+            used_b = set(int(x) for x in it['truth'].get('infos', {}) if 48 <= (int(x) // 1000) % 100 <= 63 and int(x) < 100000)
+            used_d = set(x for x in it.get('top', []) if x >= 300000 and 48 <= (x // 1000) % 100 <= 63)
+            if it['kind'] == 'new' and not (used_b <= have_b and used_d <= have_d):
+                return False
+    return True
 
 
 def _copy(plan):
